@@ -1,6 +1,6 @@
 \* exhaustive (thorough, deep): 4 temperatures, 3 kind pairs, every behaviour of up to 4 calls
 CONSTANTS NT = 4  NV = 1  MaxLevel = 4
-  KindChoices <- McKindsDeep  TempChoices <- McTempsOne  LinkPairs <- McLinks  RampSteps <- McRamp
+  KindChoices <- McKindsDeep  TempChoices <- McTempsOne  LinkPairs <- McLinks  RampSteps <- McRamp  AuxChoices <- McAuxTwo
 INIT Init
 NEXT NextB
 CONSTRAINT Bound
@@ -8,6 +8,7 @@ VIEW View
 INVARIANT TypeOK
 INVARIANT LinksAcyclic
 INVARIANT PathIndependent
+INVARIANT AuxScaleWithDensities
 INVARIANT DensityShrinksBySquare
 INVARIANT DimensionLaw
 INVARIANT AreaGrowsBySquare
